@@ -21,6 +21,7 @@ import (
 	"github.com/bitcoin-sv/block-headers-service/internal/chaincfg"
 	"github.com/bitcoin-sv/block-headers-service/repository"
 	"github.com/bitcoin-sv/block-headers-service/service"
+	peerpkg "github.com/bitcoin-sv/block-headers-service/transports/p2p/peer"
 	"github.com/jmoiron/sqlx"
 	"github.com/rs/zerolog"
 )
@@ -224,4 +225,12 @@ func EnsureGlobals() {
 	if config.TimeSource == nil {
 		config.TimeSource = config.NewMedianTime(Quiet())
 	}
+}
+
+// OpenRigWithPeers rebuilds the services of an open rig with a peers map, as cmd/main.go does:
+// the very same map is handed to service.NewServices (network service) and to the P2P server.
+func OpenRigWithPeers(r *Rig, peers any) *Rig {
+	pm, _ := peers.(map[*peerpkg.Peer]*peerpkg.SyncState)
+	svc := service.NewServices(service.Dept{Repositories: r.Repo, Peers: pm, AdminToken: r.Cfg.HTTP.AuthToken, Logger: Quiet(), Config: r.Cfg})
+	return &Rig{Path: r.Path, Cfg: r.Cfg, DB: r.DB, Repo: r.Repo, Svc: svc, Store: r.Store}
 }
